@@ -1,6 +1,7 @@
 import Crusta.Proofs.Oracle
 import Crusta.Proofs.Prog
 import Crusta.Model.Solvers
+import Crusta.Proofs.StaticAll
 
 /-!
 # C06 — answers do not depend on encoding, backend, certificate flag or query order
@@ -67,5 +68,34 @@ theorem outcome_world_invariant {α : Type} (p : Prog α) : ∀ (rs : List Reply
       | unknown => simp [interp]
       | unsat => simp only [interp]; exact ih none rs' _ _ (by simp [World.onReply, World.onSolve, World.upd, h])
       | sat m => simp only [interp]; exact ih (some m) rs' _ _ (by simp [World.onReply, World.onSolve, World.upd, h])
+
+
+/-- **C06 on the solver programs**: the status is a function of the semantics, the graph and the
+query only.  Two runs of the same query — with different encoders (any of those the solver type is
+meant for), different SAT solvers (any sound reply lists), with or without certificate, from
+different worlds (i.e. after different histories of earlier queries on the solver object) — return
+the same status. -/
+theorem status_independent_of_configuration (sk : SolverKind) (v : FwView) (g : G) (hv : v.Ok g)
+    (args : List Nat) (hargs : ∀ a ∈ args, g.live a = true)
+    (cfg1 cfg2 : Cfg) (h1 : CfgOK sk cfg1) (h2 : CfgOK sk cfg2) (c1 c2 : Bool)
+    (w1 w2 : World) (hb1 : w1.Bounded) (hb2 : w2.Bounded) (rs1 rs2 : List Reply)
+    (a1 a2 : AccAns) (cv1 cv2 : Bool) (w1' w2' : World) :
+    (∀ p1 p2, entryProg sk cfg1 v (.dc c1 args) = some p1 → entryProg sk cfg2 v (.dc c2 args) = some p2 →
+      RunSound p1 rs1 w1 → RunSound p2 rs2 w2 →
+      interp p1 rs1 w1 = (.done (.acc a1 cv1), w1') → interp p2 rs2 w2 = (.done (.acc a2 cv2), w2') →
+      a1.status = a2.status) ∧
+    (∀ p1 p2, entryProg sk cfg1 v (.ds c1 args) = some p1 → entryProg sk cfg2 v (.ds c2 args) = some p2 →
+      RunSound p1 rs1 w1 → RunSound p2 rs2 w2 →
+      interp p1 rs1 w1 = (.done (.acc a1 cv1), w1') → interp p2 rs2 w2 = (.done (.acc a2 cv2), w2') →
+      a1.status = a2.status) := by
+  constructor
+  · intro p1 p2 hp1 hp2 hs1 hs2 hr1 hr2
+    obtain ⟨_, hd1, _⟩ := static_answers_conform sk cfg1 h1 v g hv (.dc c1 args) (fun x hx => hargs x hx) p1 hp1 w1 hb1 rs1 hs1 _ w1' hr1
+    obtain ⟨_, hd2, _⟩ := static_answers_conform sk cfg2 h2 v g hv (.dc c2 args) (fun x hx => hargs x hx) p2 hp2 w2 hb2 rs2 hs2 _ w2' hr2
+    exact (status_determined sk.sem g args c1 c2 a1 a2).1 hd1 hd2
+  · intro p1 p2 hp1 hp2 hs1 hs2 hr1 hr2
+    obtain ⟨_, hd1, _⟩ := static_answers_conform sk cfg1 h1 v g hv (.ds c1 args) (fun x hx => hargs x hx) p1 hp1 w1 hb1 rs1 hs1 _ w1' hr1
+    obtain ⟨_, hd2, _⟩ := static_answers_conform sk cfg2 h2 v g hv (.ds c2 args) (fun x hx => hargs x hx) p2 hp2 w2 hb2 rs2 hs2 _ w2' hr2
+    exact (status_determined sk.sem g args c1 c2 a1 a2).2 hd1 hd2
 
 end Crusta.C06
